@@ -7,9 +7,11 @@ import (
 	"io"
 	"log/slog"
 	"net"
+	"reflect"
 	"time"
 
 	"github.com/anthdm/hollywood/actor"
+	"google.golang.org/protobuf/proto"
 	"storj.io/drpc/drpcconn"
 	"storj.io/drpc/drpcmanager"
 	"storj.io/drpc/drpcwire"
@@ -60,7 +62,7 @@ func (s *streamWriter) Invoke(msgs []actor.Envelope) {
 		senders      = make([]*actor.PID, 0)
 		targetLookup = make(map[uint64]int32)
 		targets      = make([]*actor.PID, 0)
-		messages     = make([]*Message, len(msgs))
+		messages     = make([]*Message, 0, len(msgs))
 	)
 
 	for i := 0; i < len(msgs); i++ {
@@ -70,6 +72,12 @@ func (s *streamWriter) Invoke(msgs []actor.Envelope) {
 			senderID int32
 			targetID int32
 		)
+		// A message that cannot be serialized is dropped on its own: it must neither
+		// take the writer down nor leave a hole in the batch.
+		if _, ok := stream.msg.(proto.Message); !ok {
+			slog.Error("serialize", "err", "message is not a proto.Message", "type", reflect.TypeOf(stream.msg))
+			continue
+		}
 		typeID, typeNames = lookupTypeName(typeLookup, s.serializer.TypeName(stream.msg), typeNames)
 		senderID, senders = lookupPIDs(senderLookup, stream.sender, senders)
 		targetID, targets = lookupPIDs(targetLookup, stream.target, targets)
@@ -80,12 +88,12 @@ func (s *streamWriter) Invoke(msgs []actor.Envelope) {
 			continue
 		}
 
-		messages[i] = &Message{
+		messages = append(messages, &Message{
 			Data:          b,
 			TypeNameIndex: typeID,
 			SenderIndex:   senderID,
 			TargetIndex:   targetID,
-		}
+		})
 	}
 
 	env := &Envelope{
